@@ -416,7 +416,15 @@ def main(argv=None):
     if REPO not in sys.path:
         sys.path.insert(0, REPO)
     if a.cmd == 'check':
-        seed = int(os.environ.get('VERIF_SEED', '0') or 0)
+        raw = (os.environ.get('VERIF_SEED', '0') or '0').strip()
+        try:
+            seed = int(raw)
+        except ValueError:      # any string is accepted as a seed
+            import zlib
+            seed = zlib.crc32(raw.encode())
+        # the property modules derive numpy seeds as seed + small offsets / seed * small factors: keep it small and
+        # non-negative so that any VERIF_SEED value is usable (values below 2 000 003 are used as they are)
+        seed %= 2000003
         mod = importlib.import_module(f'mcx.props.{a.pid.lower()}')
         ctx = Ctx(mod.ID, mod.LEVEL, a.tier, seed)
         import opticomlib
